@@ -20,73 +20,6 @@ import (
 	"github.com/alecthomas/participle/v2/lexer"
 )
 
-// ---------- abstract grammar ----------
-
-const (
-	kLit  = iota // "text"
-	kTLit        // "text":Type
-	kRef         // Type
-	kSeq         // a b c
-	kAlt         // a | b
-	kGrp         // ( a ) with modifier
-	kCap         // @a
-	kSub         // @@
-	kNeg         // ~a
-	kLA          // (?= a) (?! a)
-)
-
-const (
-	mOnce = iota
-	mOpt
-	mStar
-	mPlus
-	mNonEmpty
-)
-
-const (
-	fStr = iota
-	fStrs
-	fBool
-	fTok
-	fToks
-	fSubP  // *T
-	fSubV  // T
-	fSubPS // []*T
-	fSubVS // []T
-	fUnion // interface (union)
-	fUnions
-	fOther // numeric etc. (not compared here)
-)
-
-type rx struct {
-	kind  int
-	s     string // literal text
-	typ   string // token name
-	mode  int
-	neg   bool
-	kids  []*rx
-	field int
-	prod  *rprod
-}
-
-type rfield struct {
-	name  string
-	kind  int
-	index []int // reflect index path
-	sub   *rprod
-}
-
-type rprod struct {
-	name    string
-	typ     reflect.Type
-	expr    *rx
-	fields  []rfield
-	union   bool
-	members []*rprod
-	// optional position fields
-	posIdx, endIdx, toksIdx []int
-}
-
 // ---------- tag lexer (own implementation of the tag alphabet) ----------
 
 type vtag struct {
